@@ -421,7 +421,15 @@ class GitStream(Stream):
     rule = ("random trees inside a Git repository with generated .gitignore hierarchies (globs, directory rules, negations), files "
             "tracked / untracked / ignored, a manual submodule and subprojects/, in 40 % of the cases a user-level ignore file "
             "(core.excludesFile of the user's global Git configuration, outside the repository), four flag combinations: real Project.all_files vs the "
-            "model walk fed `git check-ignore` answers vs the oracle; non-trivial = some file ignored by Git and some covered")
+            "model walk fed `git check-ignore` answers vs the oracle; a second family of cases adds 0-3 further submodules (paths of one to "
+            "three components with dots, blanks, dashes, non-ASCII; the name equal to the path or given apart with dots / blanks / a `.path` "
+            "ending; as plain directory, with a .git file, as embedded repository, as gitlink in the index, or made by `git submodule add "
+            "[--name N]`; registered through `git config --file .gitmodules`) and reaches the root through symbolic links (an ancestor "
+            "directory is a link, the root itself is one, a link to a link, a relative link), spelt absolute or relative, the process in the "
+            "root, its parent or a sibling directory: Project.from_directory(<that spelling>).all_files, subset_files, `reuse --root <that "
+            "spelling> lint --json` and `lint-file` must each examine exactly the covered files (Git's verdicts are asked in the real "
+            "directory and do not depend on the spelling; files below a registered submodule path are covered iff --include-submodules); "
+            "non-trivial = some file ignored by Git and some covered")
     IGN = ["*.o", "build/", "/docs/gen.txt", "!keep.o", "tmp*", "src/*.log", "**/cache/", "*.tmp"]
     NAMES = ["a.c", "b.o", "keep.o", "gen.txt", "tmp1", "x.log", "y.tmp", "README", "LICENSE", "z.py"]
     DNAMES = ["src", "build", "docs", "cache", "subprojects", "mod", "lib"]
@@ -429,6 +437,11 @@ class GitStream(Stream):
     def cases(self, tier, rng):
         for i in range(200 if tier == "thorough" else 25):
             yield {"seed": rng.randrange(1 << 30), "flags": rng.choice(["00", "01", "10", "11"])}
+        # further submodules (names / paths with dots, blanks, several components, a name other than the path; real ones), and the
+        # root spelt through symbolic links, absolute or relative, from the root, its parent or a sibling directory
+        for i in range(240 if tier == "thorough" else 30):
+            yield {"seed": rng.randrange(1 << 30), "flags": rng.choice(["00", "01", "10", "10", "11", "00"]), "xsubs": 1,
+                   "via": rng.choice(c03vcs.VIAS), "cwd": rng.choice(["root", "top", "elsewhere"]), "rootsp": rng.choice(["abs", "rel"])}
 
     def _gen(self, case):
         import random
@@ -493,6 +506,14 @@ class GitStream(Stream):
                 with open(os.path.join(root, ".gitmodules"), "w") as fp:
                     fp.write('[submodule "mod"]\n\tpath = mod\n\turl = https://example.com/mod.git\n')
             _git(["init", "-q"], root)
+            plan = c03vcs.plan_submodules(case["seed"]) if case.get("xsubs") else []
+            xsubs = c03vcs.build_submodules(top, root, plan)
+            # the spelling of the root the tool is given, and where the process is
+            os.makedirs(os.path.join(top, "elsewhere"))
+            cwd = {"root": root, "top": top, "elsewhere": os.path.join(top, "elsewhere")}[case.get("cwd", "root")]
+            rootsp = c03vcs.linked_root(top, root, case.get("via", "plain"))
+            if case.get("rootsp") == "rel":
+                rootsp = os.path.relpath(rootsp, cwd)
             # track a random half of the non-ignored files (and force-add one ignored file sometimes)
             allf = []
             for dp, dn, fn in os.walk(root):
@@ -510,19 +531,28 @@ class GitStream(Stream):
             saved_env = {k: os.environ.get(k) for k in ("GIT_CONFIG_GLOBAL", "GIT_CONFIG_SYSTEM")}
             os.environ["GIT_CONFIG_GLOBAL"] = gconf      # the user's configuration as the tool's Git finds it
             os.environ["GIT_CONFIG_SYSTEM"] = "/dev/null"
+            extra_sets = {}
             try:
-                with cli.chdir(root):
-                    project = Project.from_directory(root, include_submodules=flags[0] == "1", include_meson_subprojects=flags[1] == "1")
-                    got = sorted(os.path.relpath(str(p), root) for p in project.all_files())
+                with cli.chdir(cwd):
+                    project = Project.from_directory(rootsp, include_submodules=flags[0] == "1", include_meson_subprojects=flags[1] == "1")
+                    got = sorted(os.path.relpath(str(p), rootsp) for p in project.all_files())
                     # lint-file's file source: every file on disk named (those inside .git, ignored directories, the
                     # submodule and subprojects/ included), through Project.subset_files and through the command; then a random half
                     every = list(allf) + [x for x in (".git/HEAD", ".git/config") if os.path.exists(os.path.join(root, x))]
-                    lf_all = sorted(os.path.relpath(str(p), root) for p in project.subset_files([os.path.join(root, x) for x in every]))
+                    lf_all = sorted(os.path.relpath(str(p), rootsp) for p in project.subset_files([os.path.join(rootsp, x) for x in every]))
                     half = sorted(x for x in every if rng.random() < 0.5)
-                    lf_half = sorted(os.path.relpath(str(p), root) for p in project.subset_files(half)) if half else []
+                    lf_half = sorted(os.path.relpath(str(p), rootsp) for p in project.subset_files(
+                        [os.path.join(rootsp, x) for x in half] if "via" in case else half)) if half else []
                 opts = (["--include-submodules"] if flags[0] == "1" else []) + (["--include-meson-subprojects"] if flags[1] == "1" else [])
                 forms = [rng.choice(("rel", "dot", "abs")) for _ in every]
-                lf_cli = lint_file_examined(root, root, opts + ["--no-multiprocessing"], [spell(x, f, root, root) for x, f in zip(every, forms)])
+                if "via" in case:
+                    # the commands, told the root in that spelling (the named files spelt below the root as the user spelt it)
+                    aroot = os.path.normpath(os.path.join(cwd, rootsp))
+                    lf_cli = lint_file_examined(aroot, cwd, opts + ["--no-multiprocessing", "--root", rootsp],
+                                                [spell(x, f, aroot, cwd) for x, f in zip(every, forms)])
+                    extra_sets["lint_cli"] = c03vcs.lint_json_files(rootsp, cwd, opts, os.path.realpath(root))
+                else:
+                    lf_cli = lint_file_examined(root, root, opts + ["--no-multiprocessing"], [spell(x, f, root, root) for x, f in zip(every, forms)])
             finally:
                 logging.disable(logging.NOTSET)
                 for k, v in saved_env.items():
@@ -536,13 +566,17 @@ class GitStream(Stream):
                 dn[:] = [d for d in dn if d != ".git"]
                 for x in dn + fn:
                     paths.append(os.path.relpath(os.path.join(dp, x), root))
-            r = _git(["check-ignore", "--stdin", "-z"], root, input=("\0".join(paths)).encode(), global_config=gconf)
+            # (Git refuses to answer for a path inside a submodule of its index; the generated submodules hold no name an ignore pattern matches)
+            asked = [x for x in paths if not c03vcs.below_any(x, xsubs)]
+            r = _git(["check-ignore", "--stdin", "-z"], root, input=("\0".join(asked)).encode(), global_config=gconf)
+            if r.returncode not in (0, 1):
+                raise RuntimeError("git check-ignore failed: %r" % r.stderr[-200:])
             ignored = sorted(x for x in r.stdout.decode().split("\0") if x)
             # full tree as it is on disk (including .gitignore, .gitmodules)
             def read(d):
                 out = []
                 for n in sorted(os.listdir(d)):
-                    if n == ".git" and d == root:
+                    if n == ".git" and os.path.isdir(os.path.join(d, n)):
                         out.append((n, ("d", [])))
                         continue
                     p = os.path.join(d, n)
@@ -553,8 +587,8 @@ class GitStream(Stream):
                 return out
             disk = read(root)
             tracked = sorted(x for x in _git(["ls-files", "-z"], root).stdout.decode().split("\0") if x)
-            return json.dumps({"got": got, "ignored": ignored, "sub": [sub] if sub else [], "disk": disk, "tracked": tracked,
-                               "lf_all": lf_all, "lf_cli": lf_cli, "lf_half": lf_half, "half": half})
+            return json.dumps({"got": got, "ignored": ignored, "sub": ([sub] if sub else []) + xsubs, "disk": disk, "tracked": tracked,
+                               "lf_all": lf_all, "lf_cli": lf_cli, "lf_half": lf_half, "half": half, "rootsp": rootsp, "cwd": cwd, **extra_sets})
 
     def model_lines(self, case):
         return []  # needs the on-disk facts; compared inside the oracle through a second driver round
@@ -572,11 +606,14 @@ class GitStream(Stream):
         want = sorted(spec_covered(disk, case["flags"], frozenset(r["ignored"]), frozenset(r["sub"])))
         if r["got"] != want:
             a, b = set(r["got"]), set(want)
-            self._last = (sorted(a - b), sorted(b - a), r)
-            return "git-covered-set-differs: examined although excluded/ignored %s; covered but skipped %s" % (sorted(a - b), sorted(b - a))
+            # kept per case: classify() is asked after all cases have been judged
+            self.__dict__.setdefault("_seen", {})[json.dumps(case, sort_keys=True)] = (sorted(a - b), sorted(b - a), r)
+            return "git-covered-set-differs: examined although excluded/ignored %s; covered but skipped %s%s" % (
+                sorted(a - b), sorted(b - a), " (root spelt %r, process in %r; submodules %s)" % (r["rootsp"], r["cwd"], r["sub"]) if "via" in case else "")
         # lint-file: of the named files exactly the covered ones are examined (C03_same_set / C03_subset)
         for key, named, how in (("lf_all", None, "Project.subset_files(<every file on disk>)"), ("lf_cli", None, "`reuse lint-file <every file on disk>`"),
-                                ("lf_half", set(r.get("half", [])), "Project.subset_files(<half of the files on disk>)")):
+                                ("lf_half", set(r.get("half", [])), "Project.subset_files(<half of the files on disk>)"),
+                                ("lint_cli", None, "`reuse --root %s lint --json` run in %s" % (r.get("rootsp"), r.get("cwd")))):
             if key not in r:
                 continue
             part = want if named is None else [p for p in want if p in named]
@@ -593,8 +630,10 @@ class GitStream(Stream):
         return None
 
     def classify(self, case, failure):
-        if failure.startswith("git-covered-set-differs") and "covered but skipped []" in failure:
-            extra, _, r = self._last
+        if failure.startswith("git-covered-set-differs") and "covered but skipped [] " in failure + " ":
+            if json.dumps(case, sort_keys=True) not in getattr(self, "_seen", {}):
+                return None
+            extra, _, r = self._seen[json.dumps(case, sort_keys=True)]
             ign = set(r["ignored"])
             tracked = r["tracked"]
 
@@ -614,7 +653,12 @@ class GitStream(Stream):
 
     def show(self, case):
         t, ign_root, ign_sub, _ = self._gen(case)
-        return {"tree": t, "gitignore": ign_root, "src/.gitignore": ign_sub, "flags": case["flags"], "user_ignore_file": self._user_ignore(case)}
+        out = {"tree": t, "gitignore": ign_root, "src/.gitignore": ign_sub, "flags": case["flags"], "user_ignore_file": self._user_ignore(case)}
+        if case.get("xsubs"):
+            out["further_submodules [name, path, kind]"] = c03vcs.plan_submodules(case["seed"])
+        if "via" in case:
+            out["root"] = {"reached": case["via"], "spelt": case["rootsp"], "process_in": case["cwd"]}
+        return out
 
 
 class TreeStreamCmp(TreeStream):
